@@ -39,6 +39,10 @@ CLAIMS = {
             "All 870 cells of the product are executed on the real daemon; monitors: victim released, its elements removed from every replica, routed requests to it answered with an error, nothing generated for it afterwards, third parties undisturbed, idle baseline.", "4 C05"),
     "C09": ("exploration", "differential monitoring: reference execution vs kernel-policy variants (segmentation, coalescing, batching, spurious wake-ups, read-buffer scribbling); parse_message content tap",
             "The same multi-connection script is executed as reference and under up to 16 kernel policies incl. scribbling of the read buffer behind the received bytes; decoded outputs per connection must be identical; the content handed to the JSON layer must equal the k-th message sent.", "4 C09"),
+    "C10": ("fault_enumeration", "byte-exact comparison of the kernel-accepted stream with the frames generated by the daemon (send-call tap) under enumerated write acceptance behaviours",
+            "Write budgets, per-call caps, refills and hard errors are enumerated around frames of controlled sizes; for the 256-byte buffer configuration the acceptance point covers every byte position of two consecutive frames; equality once writable, prefix while blocked/closed, no spinning, always back to epoll_wait.", "4 C10"),
+    "C11": ("fault_enumeration", "replica / RPC / routing monitors restricted to healthy peers while seeded faults (stall, write errors, RST, garbage, accept failures) hit other peers; read-back of uncertain effects",
+            "Random histories with a growing set of faulty peers at seeded subscriber-table positions; healthy peers' replicas, responses and routed requests stay under the strict monitors; after accept() failures a fresh connection must be served.", "4 C11"),
     "C12": ("exploration", "strict RFC 6455 decoder and close-status oracle on the real endpoint, digest recomputation, raw/WebSocket transparency differential (runtime monitoring)",
             "Handshake variants, strict decoding of every server frame, ping/pong over all control payload lengths and mask patterns, the listed protocol violations with their required close status, legal closes, identical JSON-RPC dialogue on raw and WebSocket transports.", "4 C12"),
     "C17": ("exploration", "reference-map and structural-invariant monitor on the real hashtable.h macros (exhaustive small orders, adversarial random histories)",
